@@ -37,9 +37,29 @@ var vfSources = []string{
 
 // two files of one package for the directory / *ast.Package path: a multi-line block comment in the
 // first lies on the line numbers on which the second has blank lines and separating line breaks
-var vfDirSources = [2]string{
-	"package p\n\n/*\n a\n b\n c\n*/\nvar x = 1\n",
-	"package p\n\nvar y = 2\n\n// c\nvar z = 3\n\nvar w = 4\n",
+var vfDirSourceSets = [][2]string{
+	{
+		"package p\n\n/*\n a\n b\n c\n*/\nvar x = 1\n",
+		"package p\n\nvar y = 2\n\n// c\nvar z = 3\n\nvar w = 4\n",
+	},
+	// a multi-line raw string in the first file lies on the line numbers on which the second file has a
+	// blank line and separating line breaks
+	{
+		"package p\n\nvar s = `one\ntwo\nthree\nfour`\n",
+		"package p\n\nfunc f() {\n\tg()\n\n\th()\n}\n",
+	},
+	// the first file (in file-name order) ends in a comment behind a blank line
+	{
+		"package p\n\nvar a = 1\n\n// trailing comment of a\n",
+		"package p\n\nvar b = 2\n",
+	},
+}
+
+// vfDirSources: the pair selected for this run (forked)
+var vfDirSources [2]string
+
+func vfPickDirSources() {
+	vfDirSources = vfDirSourceSets[vfChoice("dirSources", len(vfDirSourceSets))]
 }
 
 type vfItemPos struct {
@@ -96,6 +116,7 @@ func vfPipeline(src string) {
 // vfPipelineDir: the *ast.Package path (what ParseDir does): two files parsed into one FileSet,
 // decorated together by the real DecorateNode (map iteration order forked), each restored and compared.
 func vfPipelineDir() {
+	vfPickDirSources()
 	fset := token.NewFileSet()
 	fset.AddFile("prior.go", -1, vfInt("priorSize", 0, 1<<20))
 	f0, bad0 := vfParseInto(fset, vfDirSources[0])
@@ -271,6 +292,7 @@ func VerifC01Entry() {
 // vfEntryDir: Decorator.ParseDir over two files of one package.
 func vfEntryDir() {
 	{
+		vfPickDirSources()
 		root := vfFSRoot()
 		vfFSPut(root+"/a.go", vfDirSources[0])
 		vfFSPut(root+"/b.go", vfDirSources[1])
